@@ -39,10 +39,10 @@ SHAPES = [
     "enum", "const", "untyped_keywords",
 ]
 POSITIONS = ["root", "class_property", "untyped_property", "items", "tuple_item", "additionalProperties",
-             "file_ref", "pattern_property"]
+             "file_ref", "pattern_property", "file_ref_twice"]
 REQUIRED_COUNTERS = (
     ["cells", "parsed.default_equal", "json.default_equal", "python.default_equal", "control.no_default",
-     "not_shared.checked", "descriptions", "descriptions.hostile", "docstring.equal", "falsy_default_cells"]
+     "not_shared.checked", "later_visits.default_equal", "descriptions", "descriptions.hostile", "docstring.equal", "falsy_default_cells"]
     + [f"shape.{s}" for s in SHAPES] + [f"pos.{p}" for p in POSITIONS]
 )
 EXHAUSTIVE_SUBSPACES = {
@@ -130,6 +130,14 @@ def place(inner, position, serial):
         return {"type": "object", "title": host, "additionalProperties": inner}
     if position == "pattern_property":
         return {"patternProperties": {"^p": inner}}
+    if position == "file_ref_twice":
+        # one definition referenced from two places (json_ref_dict hands both the SAME dict object, and the
+        # definitions tail of parse() visits it a third time): every visit must see the default
+        return {"type": "object", "title": host,
+                "properties": {"p": {"$ref": "#/definitions/target"}, "q": {"type": "string"},
+                               "p2": {"$ref": "#/definitions/target"},
+                               "arr": {"type": "array", "items": {"$ref": "#/definitions/target"}}},
+                "definitions": {"target": inner}}
     if position == "file_ref":
         return {"type": "object", "title": host,
                 "properties": {"p": {"$ref": "#/definitions/target"}, "q": {"$ref": "#/definitions/other"}},
@@ -140,7 +148,7 @@ def place(inner, position, serial):
 def element_at(sut, element, position):
     if position == "root":
         return element
-    if position in ("class_property", "untyped_property", "file_ref"):
+    if position in ("class_property", "untyped_property", "file_ref", "file_ref_twice"):
         return element.properties["p"].element
     if position == "items":
         return element.items
@@ -166,7 +174,7 @@ def json_at(doc, position):
     root = follow(doc)
     if position == "root":
         return root
-    if position in ("class_property", "untyped_property", "file_ref"):
+    if position in ("class_property", "untyped_property", "file_ref", "file_ref_twice"):
         return follow(root.get("properties", {}).get("p"))
     if position == "items":
         return follow(root.get("items"))
@@ -202,7 +210,7 @@ def check_cell(ctx, sut, shape, position, default, serial, with_default=True):
     if with_default and (falsy or shape not in ("string", "integer", "number", "boolean", "null")):
         ctx.nontrivial(canon([shape, position, default]))
     try:
-        if position == "file_ref":
+        if position in ("file_ref", "file_ref_twice"):
             elements = sut.parse_file(copy.deepcopy(doc), ctx.tmpdir(), f"c07_{ctx.shard}_{serial}.json")
             element = elements[0]
         else:
@@ -230,8 +238,20 @@ def check_cell(ctx, sut, shape, position, default, serial, with_default=True):
                     f"element at {position} has default {got!r}, schema declares {default!r}")
         return
     ctx.count("parsed.default_equal")
+    if position == "file_ref_twice":
+        # the other visits of the same definition
+        others = {"p2": element.properties["p2"].element, "arr.items": element.properties["arr"].element.items}
+        if len(elements) > 1:
+            others["definitions tail"] = elements[1]
+        for label, other in others.items():
+            seen = getattr(other, "default", sut.NotPassed())
+            if isinstance(seen, sut.NotPassed) or not same(seen, default):
+                ctx.witness("default_lost_on_later_visit", case,
+                            f"the definition's default is {default!r} but its use at {label} has {seen!r}")
+                return
+        ctx.count("later_visits.default_equal")
     # siblings must not have received it
-    if position in ("class_property", "untyped_property", "file_ref"):
+    if position in ("class_property", "untyped_property", "file_ref", "file_ref_twice"):
         ctx.count("not_shared.checked")
         sibling = element.properties["q"].element
         if not isinstance(getattr(sibling, "default", sut.NotPassed()), sut.NotPassed):
